@@ -84,6 +84,7 @@ static inline const char *vcls(double x){ if(!(x == x)) return "NaN"; if(isinf(x
 static void vrt_iter_cb(const char *site, size_t comp, double a, double b, double conv){
   if(comp != vrt_iter_comp || site != vrt_iter_site){ vrt_iter_comp = comp; vrt_iter_site = site; vrt_iter_count = 0; }
   vrt_iter_count++;
+  if(site[0] == 'L') vrt_iter_count = (long)comp + 1;   /* LVCalc passes its pass index as `comp`: that IS the iteration count */
   if(vrt_iter_log && vrt_out && (vrt_iter_count <= 3 || vrt_iter_count == vrt_iter_budget))
     VRT_EMIT("{\"e\":\"Iter\",\"site\":\"%s\",\"comp\":%zu,\"it\":%ld,\"a\":\"%s\",\"b\":\"%s\",\"conv\":\"%s\"}", site, comp, vrt_iter_count, vcls(a), vcls(b), vcls(conv));
   if(vrt_iter_count >= vrt_iter_budget){
